@@ -198,3 +198,10 @@ func ZZResumeRoundTrip() {
 		vrt.Assert(got2.BytesUploaded == spec.BytesUploaded && got2.Port == spec.Port, "single-field update disturbed another field")
 	}
 }
+
+// ZZModelReset empties the key/value model of bbolt (used by the session harness).
+func ZZModelReset() {
+	zzBuckets = map[*bbolt.Bucket]*zzBkt{}
+	zzJSON = nil
+	zzRoot = zzNewBucket()
+}
